@@ -785,7 +785,22 @@ func c26(r *Run) {
 			rs = findEffects(pq, "send *.result <- fv:w.err")
 		}
 		rst := findEffects(pq, "store fv:w.err = nil")
-		cc := findEffects(pq, "call builtin.close(*.completed)")
+		var cc, ccShutdown []*effect
+		for _, e := range findEffects(pq, "call builtin.close(*.completed)") {
+			if hasStr(e.Conds(), "fv:w.shouldShutdown") {
+				ccShutdown = append(ccShutdown, e)
+			} else {
+				cc = append(cc, e)
+			}
+		}
+		// a job that is still queued at shutdown releases its owner: tasks drained, completion closed, then ErrShutdown
+		drains := 0
+		for _, e := range effectsOf(pq) {
+			if strings.HasPrefix(e.Str, "go ") && strings.Contains(e.Str, ".tasks") && hasStr(e.Conds(), "fv:w.shouldShutdown") {
+				drains++
+			}
+		}
+		r.check(len(ccShutdown) == 1 && drains == 1, "C26.R3", "processQueue:queued-job-at-shutdown-released", w.rel(pq.Pos()), "", "a job still queued when the pool stops is not released (its tasks are never read and its completion channel is never closed): Job.Go blocks forever and the Done callback never runs")
 		okk := len(wt) == 1 && len(rs) == 1 && len(rst) == 1 && len(cc) == 1
 		if okk {
 			okk = effBefore(wt[0], rs[0]) && effBefore(rs[0], rst[0]) && effBefore(wt[0], cc[0])
@@ -804,6 +819,20 @@ func c26(r *Run) {
 		r.guardTable(w, "C26.R3", nj, []guardRow{{Preds: []string{"p0.shouldShutdown"}, Sentinel: "internal/workers.ErrShutdown", Global: true, Label: "NewJob-after-shutdown"}})
 		r.requireEffect(w, "C26.R3", "NewJob:result-buffered", nj, "store alloc(complit).result = makechan(chan error)")
 		r.requireEffect(w, "C26.R3", "NewJob:enqueued", nj, "send p0.queue <- alloc(complit)", "!p0.shouldShutdown")
+		// the shutdown test and the enqueue are one atomic step with respect to Stop (which sets the flag and closes the
+		// queue): the send happens with the pool lock held
+		r.rule("C26.R5", "K4", "NewJob enqueues under the lock that Stop takes to set the flag and close the queue", 1)
+		sends := findEffects(nj, "send p0.queue <- *")
+		okA := len(sends) == 1 && heldAt(locksets(nj, lockState{}), sends[0], "p0.lock") >= 1
+		if okA {
+			// ... and Stop closes the queue under the same lock
+			okA = false
+			if stp := w.Fn(PW + "Stop"); stp != nil {
+				cl := findEffects(stp, "call builtin.close(p0.queue)")
+				okA = len(cl) == 1 && heldAt(locksets(stp, lockState{}), cl[0], "p0.lock") == 2
+			}
+		}
+		r.check(okA, "C26.R5", "NewJob:shutdown-test-and-enqueue-atomic", w.rel(nj.Pos()), "", "NewJob tests shouldShutdown under the lock, releases it and then sends on the queue while Stop closes the queue without excluding that send: a submission overlapping Stop panics with 'send on closed channel' instead of reporting ErrShutdown")
 	}
 	r.guardedBy(w, lockSpec{Rule: "C26.R3", Owner: pkgWorkers + ".ParallelWorkers", Fields: []string{"err", "shouldShutdown", "triggeredShutdown"}, Mutex: "lock", Pkgs: []string{pkgWorkers}, MinSites: 8})
 
